@@ -205,7 +205,7 @@ func spliceEntries(rng *rand.Rand, p, donor *syncer.Proof) string {
 
 func init() {
 	add := func(name string, weight int, f func(mc *mutCtx, p *syncer.Proof) (*syncer.Proof, string, bool)) {
-		repl := name == "honest-other-version" || name == "stale-old-root" || name == "other-key-whole" || name == "stale-replay" ||
+		repl := name == "fabricated-minimal" || name == "honest-other-version" || name == "stale-old-root" || name == "other-key-whole" || name == "stale-replay" ||
 			name == "splice-other-tree-whole" || name == "splice-old-root-whole"
 		mutations = append(mutations, mutation{name: name, weight: weight, f: f, replaces: repl})
 		mutationWeight += weight
@@ -628,6 +628,172 @@ func init() {
 		}
 		p.Entries[i] = append([]byte{0x01}, d...)
 		return p, fmt.Sprintf("entry %d: %s", i, what), true
+	})
+
+	// ---- fabricated minimal proofs ----------------------------------------
+	add("fabricated-minimal", 8, func(mc *mutCtx, p *syncer.Proof) (*syncer.Proof, string, bool) {
+		// A proof made from nothing but the trusted hash: no entries, a single
+		// nil, or a single hash entry (empty hash / the trusted root / the
+		// position / some node / random), in either version, claiming to be for
+		// the sync root or for the requested position.
+		rng := mc.pe.rng
+		c := mc.pe.c
+		q := &syncer.Proof{V: uint16(rng.IntN(2)), UntrustedRoot: c.root.Hash}
+		what := "for sync root"
+		if rng.IntN(3) == 0 {
+			q.UntrustedRoot, what = mc.ri.position, "for position"
+		}
+		var eh hash.Hash
+		eh.Empty()
+		rawHash := func(h hash.Hash) []byte { return append([]byte{0x02}, h[:]...) }
+		switch rng.IntN(9) {
+		case 0:
+			q.Entries, what = [][]byte{}, what+", no entries"
+		case 1, 2:
+			q.Entries, what = [][]byte{nil}, what+", [nil]"
+		case 3, 4:
+			q.Entries, what = [][]byte{rawHash(eh)}, what+", [hash entry = empty hash]"
+		case 5:
+			q.Entries, what = [][]byte{rawHash(q.UntrustedRoot)}, what+", [hash entry = claimed root]"
+		case 6:
+			h := c.root.Hash
+			if len(c.fullHashes) > 0 {
+				h = c.fullHashes[rng.IntN(len(c.fullHashes))]
+			}
+			q.Entries, what = [][]byte{rawHash(h)}, what+", [hash entry = some node of the tree]"
+		case 7:
+			q.Entries, what = [][]byte{rawHash(randHash(rng))}, what+", [hash entry = random]"
+		default:
+			q.Entries, what = [][]byte{nil, nil}, what+", [nil nil]"
+		}
+		return q, fmt.Sprintf("v%d %s", q.V, what), true
+	})
+
+	// ---- alternative encodings of honest entries ---------------------------
+	add("reencode-db", 5, func(mc *mutCtx, p *syncer.Proof) (*syncer.Proof, string, bool) {
+		// Internal-node entries given in the non-compact (database) serialization
+		// (inline leaf + embedded child hashes). Same tree, different bytes.
+		if !mc.annotate() {
+			return nil, "", false
+		}
+		rng := mc.pe.rng
+		all := rng.IntN(2) == 0
+		one := pickEntry(rng, p, isFullInternal)
+		n := 0
+		for i, e := range p.Entries {
+			if !isFullInternal(e) || (!all && i != one) {
+				continue
+			}
+			if ni := mc.pe.c.full[mc.annHash[i]]; ni != nil && ni.entryDB != nil {
+				p.Entries[i] = append([]byte{}, ni.entryDB...)
+				n++
+			}
+		}
+		return p, fmt.Sprintf("%d internal entries in database encoding", n), n > 0
+	})
+	add("reencode-other-compact", 3, func(mc *mutCtx, p *syncer.Proof) (*syncer.Proof, string, bool) {
+		// Compact encoding of the other proof version (with / without inline leaf).
+		if !mc.annotate() {
+			return nil, "", false
+		}
+		i := pickEntry(mc.pe.rng, p, isFullInternal)
+		if i < 0 {
+			return nil, "", false
+		}
+		ni := mc.pe.c.full[mc.annHash[i]]
+		if ni == nil {
+			return nil, "", false
+		}
+		if p.V == 0 {
+			p.Entries[i] = append([]byte{}, ni.entryV1...)
+		} else {
+			p.Entries[i] = append([]byte{}, ni.entryV0...)
+		}
+		return p, fmt.Sprintf("entry %d in the compact encoding of version %d", i, p.V^1), true
+	})
+	add("reencode-db-forged-child", 14, func(mc *mutCtx, p *syncer.Proof) (*syncer.Proof, string, bool) {
+		// The real node in database encoding (its embedded child hashes are the
+		// true ones) followed by child entries that are NOT its children: a
+		// forged leaf, nil, another node's hash, a subtree of another tree.
+		if !mc.annotate() {
+			return nil, "", false
+		}
+		rng := mc.pe.rng
+		c := mc.pe.c
+		i := pickEntry(rng, p, isFullInternal)
+		if i < 0 {
+			return nil, "", false
+		}
+		ni := c.full[mc.annHash[i]]
+		if ni == nil || ni.leaf || ni.entryDB == nil {
+			return nil, "", false
+		}
+		nch := 2
+		if p.V == 1 {
+			nch = 3
+		}
+		// Extents of the child subtrees in the honest proof.
+		starts := make([]int, nch+1)
+		pos := i + 1
+		for k := 0; k < nch; k++ {
+			if pos >= len(p.Entries) {
+				return nil, "", false
+			}
+			starts[k] = pos
+			pos = mc.annEnd[pos]
+		}
+		starts[nch] = pos
+		// Which child does the requested key go to?
+		key := mc.someKey()
+		if mc.ri.op != "prefixes" && rng.IntN(4) != 0 {
+			key = append([]byte{}, mc.ri.key...)
+		}
+		bl := ni.depth + int(ni.internal.LabelBitLength)
+		k := rng.IntN(nch)
+		if rng.IntN(4) != 0 {
+			switch {
+			case len(key)*8 == bl && p.V == 1:
+				k = 0
+			case len(key)*8 > bl && key[bl/8]&(1<<(7-uint(bl%8))) != 0:
+				k = nch - 1
+			case len(key)*8 > bl:
+				k = nch - 2
+			}
+		}
+		var repl [][]byte
+		var what string
+		switch x := rng.IntN(10); {
+		case x < 4:
+			repl, what = [][]byte{fabricatedLeaf(key, append(genValue(rng), 0x77))}, fmt.Sprintf("forged leaf for key %x", key)
+		case x < 7:
+			repl, what = [][]byte{nil}, "nil"
+		case x < 8 && len(c.fullHashes) > 0:
+			repl, what = [][]byte{hashEntry(c.fullHashes[rng.IntN(len(c.fullHashes))])}, "hash of another node"
+		default:
+			donor := []string{"other-tree", "old-root"}[rng.IntN(2)]
+			q, err := mc.pe.fetch(donor, mc.ri)
+			if err != nil || len(q.Entries) == 0 || q.V != p.V {
+				return nil, "", false
+			}
+			repl, what = q.Entries, "whole proof of "+donor+" as subtree"
+		}
+		ent := append([]byte{}, ni.entryDB...)
+		if rng.IntN(8) == 0 {
+			// Variant: database encoding with a forged inline leaf as well.
+			in := *ni.internal
+			in.LeafNode = &node.Pointer{Clean: true, Node: &node.LeafNode{Key: key, Value: genValue(rng)}}
+			if b, err := in.MarshalBinary(); err == nil {
+				ent = append([]byte{0x01}, b...)
+				what += " + forged inline leaf"
+			}
+		}
+		ne := append([][]byte{}, p.Entries[:i]...)
+		ne = append(ne, ent)
+		ne = append(ne, p.Entries[starts[0]:starts[k]]...)
+		ne = append(ne, repl...)
+		ne = append(ne, p.Entries[starts[k+1]:]...)
+		p.Entries = ne
+		return p, fmt.Sprintf("entry %d (bit depth %d) in database encoding, child %d of %d replaced by %s", i, ni.depth, k, nch, what), true
 	})
 
 	// ---- header -----------------------------------------------------------
